@@ -29,7 +29,7 @@ ASSUMPTIONS = [
     "zone U11: non-ASCII alphanumerics adjacent to a name are executed but not compared",
 ]
 ALPHABET = "${}()aB_1-"
-VALUES = ["", "v", "$a", "${a}", "$$", "$(A)"]
+VALUES = ["", "v", "$a", "${a}", "$$", "$(A)", "caf\udce9 \u00e9"]     # the last: bytes that are not UTF-8, as the environment hands them over
 DECOY = "<WRONG-CASE>"
 
 
@@ -319,6 +319,17 @@ def run_shard(spec):
                     if n == 2:
                         _run_string(res, ":".join(t))
             res.exhaustive_parts.append("all concatenations of 2 and 3 references drawn from %r" % (refs,))
+            # size classes: the same short strings far inside a long one (>= 128, >= 4096 characters)
+            for L in range(1, 5):
+                for t in itertools.product(ALPHABET, repeat=L):
+                    w = "".join(t)
+                    if "$" not in w:
+                        continue
+                    _run_string(res, "x" * 130 + w)
+                    _run_string(res, w + "-" * 140)
+                    if L <= 3:
+                        _run_string(res, "lorem ipsum " * 400 + w + " dolor" * 30)
+            res.exhaustive_parts.append("every string of <= 4 characters containing '$', behind 130 / before 140 / inside 5000 plain characters")
         elif spec["part"] == "exh":
             for pre in spec["prefixes"]:
                 for L in range(0, spec["maxlen"] - 1):
